@@ -321,6 +321,8 @@ type knobs struct {
 	unknownFirst                                                           bool
 	topLevelSignal                                                         bool
 	big                                                                    bool
+	// near-collisions: keys that are almost, but not, equal (must NOT be confused by the passes)
+	nearMsgID, nearNode, sameSigAcross, nearVal, nearRef, muxEdge, startEdge, nearUnit int
 }
 
 var neutralUnits = []string{"", "", "", "V", "A", "rpm", "mNm", "s", "degC"}
@@ -421,6 +423,49 @@ func (b *builder) freshID() uint32 {
 			return id
 		}
 	}
+}
+
+// flipExt returns the id that differs from id only in the extended flag (bit 31), if the parser accepts it.
+func flipExt(id uint32) (uint32, bool) {
+	if id == 0xC0000000 || id == 0x40000000 {
+		return 0, false
+	}
+	if id&0x80000000 != 0 {
+		if id&0x7fffffff <= 0x7ff {
+			return id & 0x7fffffff, true
+		}
+		return 0, false
+	}
+	return id | 0x80000000, true
+}
+
+// nearID returns an unused id that collides with an existing message id in everything but bit 31, or in the
+// low 11 bits, or that belongs to the 0x80000000 / 0xC0000000 family.
+func (b *builder) nearID() uint32 {
+	g := b.g
+	for try := 0; try < 40; try++ {
+		var id uint32
+		src := b.msgs[g.r.Intn(len(b.msgs))].id
+		switch g.r.Intn(6) {
+		case 0, 1, 2:
+			f, ok := flipExt(src)
+			if !ok {
+				continue
+			}
+			id = f
+		case 3: // equal after &0x7ff
+			id = (src & 0x7ff) | uint32(g.between(1, 0x3ffff))<<11 | 0x80000000
+		case 4:
+			id = g.choose32(0x80000000, 0x80000001, 0x9fffffff, 0x800007ff, 0, 1, 0x7ff)
+		default:
+			id = 0xC0000000 // with an ordinary name: not the pseudo message
+		}
+		if !b.usedIDs[id] {
+			b.usedIDs[id] = true
+			return id
+		}
+	}
+	return b.freshID()
 }
 
 // cleanSignal: a signal violating no rule inside message m (names unique within the message)
@@ -542,10 +587,12 @@ func (b *builder) valueDescs(bad int) string {
 		case 2:
 			val = g.choose("1e30", "-1e30", "9223372036854775807", "-9223372036854775808", "18446744073709551615", "1e19")
 		}
-		desc := g.choose("Off", "On", "Active", "Error", "NotAvailable", "Init2", "1StGear", "123", "", "٣Abc", "A1B2", "X")
+		desc := g.choose("Off", "On", "Active", "Error", "NotAvailable", "Init2", "1StGear", "123", "", "٣Abc", "A1B2", "X",
+			"A１", "٣٤", "１２Ab", "१Go", "Z٩z9", "𝟘Zero")
 		if i < bad {
 			desc = g.choose("off", "not available", "snake_case", "3rd", "1stGear", "kebab-case", "Ölig", "Café", "A b", "A²",
-				"中", "\U0001F600x", "a", "_", "Ab\\\"c", "Line\nbreak", "x٣")
+				"中", "\U0001F600x", "a", "_", "Ab\\\"c", "Line\nbreak", "x٣",
+				"Ａbc", "٣a", "Aé", "Ⅷ", "Ⅷa", "A½", "²A", "٣ A", "Ωmega", "Äb", "Aß", "１a", "A३ b", "ǅ", "Ǆa")
 		}
 		fmt.Fprintf(&sb, " %s \"%s\"", val, desc)
 	}
@@ -590,7 +637,12 @@ func (g *gen) build(k knobs) string {
 		nMsgs = g.between(8, 20)
 	}
 	for i := 0; i < nMsgs; i++ {
-		m := &msgPlan{id: b.freshID(), name: b.uniq(g.camel), size: uint64(g.between(0, 8)), tx: b.node()}
+		m := &msgPlan{name: b.uniq(g.camel), size: uint64(g.between(0, 8)), tx: b.node()}
+		if i > 0 && g.chance(0.25) {
+			m.id = b.nearID()
+		} else {
+			m.id = b.freshID()
+		}
 		if g.chance(0.1) {
 			m.size = uint64(g.choose("12", "16", "64")[0]-'0') + 10
 		}
@@ -748,6 +800,114 @@ func (g *gen) build(k knobs) string {
 			s.mux = "m7"
 		}
 	}
+	for i := 0; i < k.nearMsgID; i++ {
+		// pairs / triples {x, x|0x80000000, ...}: distinct ids, no report owed
+		for j := g.between(1, 2); j > 0; j-- {
+			m := &msgPlan{id: b.nearID(), name: b.uniq(g.camel), size: uint64(g.between(1, 8)), tx: b.node()}
+			m.sigs = append(m.sigs, b.cleanSignal(m, map[string]bool{}))
+			b.msgs = append(b.msgs, m)
+		}
+		if g.chance(0.4) { // a real duplicate mixed in
+			src := b.anyMsg()
+			m := &msgPlan{id: src.id, name: b.uniq(g.camel), size: uint64(g.between(1, 8)), tx: b.node()}
+			b.msgs = append(b.msgs, m)
+		}
+	}
+	for i := 0; i < k.sameSigAcross; i++ {
+		// the same signal name in two different messages (allowed), sometimes also twice in one (not allowed)
+		ma, s := b.addSig()
+		for try := 0; try < 10; try++ {
+			mb := b.anyMsg()
+			if mb == ma || sigNames(mb)[s.name] {
+				continue
+			}
+			if mb.size == 0 {
+				mb.size = 8
+			}
+			d := *s
+			d.recv = b.recvList()
+			d.start = uint64(g.r.Intn(int(8 * mb.size)))
+			mb.sigs = append(mb.sigs, &d)
+			if g.chance(0.3) {
+				d2 := d
+				mb.sigs = append(mb.sigs, &d2)
+			}
+			break
+		}
+		if len(b.msgs) == 1 {
+			m := &msgPlan{id: b.nearID(), name: b.uniq(g.camel), size: 8, tx: b.node()}
+			d := *s
+			m.sigs = append(m.sigs, &d)
+			b.msgs = append(b.msgs, m)
+		}
+	}
+	for i := 0; i < k.nearVal; i++ {
+		// a 1-bit signal without prefix whose only VAL_ is for another message id / a similar name
+		m, s := b.addSig()
+		s.size, s.name, s.unit = 1, "Flag"+g.camel(), ""
+		other := b.anyMsg().id
+		if f, ok := flipExt(m.id); ok && g.chance(0.7) {
+			other = f
+		}
+		if other != m.id {
+			b.valFor = append(b.valFor, fmt.Sprintf("%d %s", other, s.name))
+		}
+		b.valFor = append(b.valFor, fmt.Sprintf("%d %s", m.id, g.choose(s.name+"X", s.name[:len(s.name)-1], strings.ToUpper(s.name), "flag"+s.name[4:])))
+		if g.chance(0.3) { // and sometimes the exact one as well: then no report is owed
+			b.valFor = append(b.valFor, fmt.Sprintf("%d %s", m.id, s.name))
+		}
+	}
+	for i := 0; i < k.muxEdge; i++ {
+		m := b.muxMessage()
+		var sw *sigPlan
+		for _, s := range m.sigs {
+			if s.mux == "M" && sw == nil {
+				sw = s
+			}
+		}
+		for _, v := range []uint64{(uint64(1) << sw.size) - 1, uint64(1) << sw.size, (uint64(1) << sw.size) - 2, 0} {
+			if g.chance(0.75) {
+				s := b.cleanSignal(m, sigNames(m))
+				s.mux = fmt.Sprintf("m%d", v)
+				m.sigs = append(m.sigs, s)
+			}
+		}
+	}
+	for i := 0; i < k.startEdge; i++ {
+		m, s := b.addSig()
+		s.start = 8*m.size - 1
+		s2 := b.cleanSignal(m, sigNames(m))
+		s2.start = 8 * m.size
+		m.sigs = append(m.sigs, s2)
+		if g.chance(0.5) {
+			s3 := b.cleanSignal(m, sigNames(m))
+			s3.start = 8*m.size + 1
+			m.sigs = append(m.sigs, s3)
+		}
+	}
+	for i := 0; i < k.nearUnit; i++ {
+		_, s := b.addSig()
+		s.unit = g.choose("km/", "km/h ", " km/h", "Km/h", "m/", "m", "m/s2", "ra", "rads", "%%", "% ", "k", "kp", "kphx", "KPH",
+			"degree", "deg.", "degs", "mps ", "meter", "meters/se", "meters/sec.", "radian", "°C", "°/s", "Â°", "º")
+		if s.size == 1 {
+			s.size = 2
+		}
+		switch g.r.Intn(4) {
+		case 0:
+			s.name = g.camel() + g.choose("Kph", "Mps", "Degrees", "Radians", "Percent")
+		case 1:
+			s.name = g.choose("Kph", "Mps", "Degrees", "Radians", "Percent") + g.camel()
+		}
+		if g.chance(0.5) { // the listed unit next to it, with a name that has the suffix only as a prefix / in lower case
+			_, t := b.addSig()
+			u := siUnits[g.r.Intn(len(siUnits))]
+			t.unit = u[0]
+			t.name = g.choose(u[1]+g.camel(), g.camel()+strings.ToLower(u[1]), g.camel()+u[1][:len(u[1])-1], g.camel()+u[1])
+			if t.size == 1 {
+				t.size = 2
+			}
+		}
+	}
 	for i := 0; i < k.dupMsgID; i++ {
 		src := b.anyMsg()
 		m := &msgPlan{id: src.id, name: b.uniq(g.camel), size: uint64(g.between(1, 8)), tx: b.node()}
@@ -805,6 +965,29 @@ func (g *gen) build(k knobs) string {
 			b.add(2, "%s", g.choose("BS_:", "BS_:", "BS_ :", "BS_: 500"))
 		}
 	}
+	var nearNodes []string
+	for i := 0; i < k.nearNode; i++ {
+		n := b.nodes[g.r.Intn(len(b.nodes))]
+		// declared variants (distinct names: no uniquenodenames report owed)
+		for _, v := range []string{strings.ToLower(n), strings.ToUpper(n), n + "X", n + "_", "X" + n} {
+			if v != n && !b.used[v] && g.chance(0.6) {
+				b.used[v] = true
+				nearNodes = append(nearNodes, v)
+			}
+		}
+		// referenced variants that are NOT declared: prefix of a node name, other spelling
+		m, s := b.addSig()
+		und := g.choose(n[:len(n)-1], n+"Y", "vector__xxx", "Vector__XX", "Vector__XXXX", "VECTOR__XXX")
+		if !b.used[und] {
+			s.recv = append(s.recv, und)
+		}
+		if g.chance(0.5) {
+			m.tx = g.choose(n[:len(n)-1], "Vector__XX", n)
+		}
+		if len(nearNodes) > 0 {
+			s.recv = append(s.recv, nearNodes[g.r.Intn(len(nearNodes))])
+		}
+	}
 	if !k.missingBU {
 		lists := make([][]string, 1+k.dupBU)
 		for i, n := range b.nodes {
@@ -812,6 +995,10 @@ func (g *gen) build(k knobs) string {
 			if i > 0 {
 				j = g.r.Intn(len(lists))
 			}
+			lists[j] = append(lists[j], n)
+		}
+		for _, n := range nearNodes {
+			j := g.r.Intn(len(lists))
 			lists[j] = append(lists[j], n)
 		}
 		for i := 0; i < k.dupNode; i++ {
@@ -857,6 +1044,19 @@ func (g *gen) build(k knobs) string {
 			}
 		}
 		b.add(6, "BO_TX_BU_ %d : %s;", b.anyMsg().id, strings.Join(l, g.choose(",", " ", ", ")))
+	}
+	for i := 0; i < k.nearRef; i++ {
+		m := b.anyMsg()
+		id := m.id
+		if f, ok := flipExt(m.id); ok {
+			id = f
+		}
+		b.add(6, "BO_TX_BU_ %d : %s;", id, strings.Join(b.recvList(), ","))
+		b.add(9, "CM_ BO_ %d \"comment for the other frame format\";", id)
+		if len(m.sigs) > 0 {
+			b.add(9, "CM_ SG_ %d %s \"signal of the other frame format\";", id, m.sigs[0].name)
+			b.add(13, "VAL_ %d %s 0 \"Off\" 1 \"On\" ;", id, m.sigs[0].name)
+		}
 	}
 	var evNames []string
 	nEnv := g.r.Intn(3)
@@ -1063,6 +1263,7 @@ var knobNames = []string{
 	"undeclTx", "undeclRx", "undeclAcc", "undeclTxBu", "reserved", "missingBS", "missingBU", "startOut", "badSigName",
 	"dupVersion", "dupNS", "dupBS", "dupBU", "nonSI", "dupMsgID", "dupNode", "dupSig", "badSuffix", "badValDesc",
 	"versionText", "pseudo", "combo", "unknownFirst", "topLevelSignal",
+	"nearMsgID", "nearNode", "sameSigAcross", "nearVal", "nearRef", "muxEdge", "startEdge", "nearUnit",
 }
 
 func (k *knobs) set(name string, n int) {
@@ -1145,6 +1346,22 @@ func (k *knobs) set(name string, n int) {
 		k.unknownFirst = n > 0
 	case "topLevelSignal":
 		k.topLevelSignal = n > 0
+	case "nearMsgID":
+		k.nearMsgID = n
+	case "nearNode":
+		k.nearNode = n
+	case "sameSigAcross":
+		k.sameSigAcross = n
+	case "nearVal":
+		k.nearVal = n
+	case "nearRef":
+		k.nearRef = n
+	case "muxEdge":
+		k.muxEdge = n
+	case "startEdge":
+		k.startEdge = n
+	case "nearUnit":
+		k.nearUnit = n
 	default:
 		panic("unknown knob " + name)
 	}
@@ -1202,6 +1419,10 @@ func (g *gen) perturb(f *dbc.File) {
 					s.Unit = g.choose("\xc2", "\xb0", "km/h ", "%", "rad")
 				}
 			}
+			if g.chance(0.3) {
+				d.MessageID = dbc.MessageID(g.choose32(0x40000000, 0x40000064, 0xC0000000, 0x80000000, 0xC0000001, 100, 0x80000064,
+					0xFFFFFFFF, 0x7FFFFFFF, uint32(d.MessageID)^0x80000000, uint32(d.MessageID)|0x40000000))
+			}
 			if g.chance(0.1) {
 				d.Name = dbc.Identifier(g.choose("", "9", "٩Z", "Z٩", "\xe2\x82", "VECTOR__INDEPENDENT_SIG_MSG"))
 			}
@@ -1243,6 +1464,7 @@ func (g *gen) perturb(f *dbc.File) {
 }
 
 func (g *gen) choose64(xs ...uint64) uint64   { return xs[g.r.Intn(len(xs))] }
+func (g *gen) choose32(xs ...uint32) uint32   { return xs[g.r.Intn(len(xs))] }
 func (g *gen) chooseI(xs ...int64) int64      { return xs[g.r.Intn(len(xs))] }
 func (g *gen) chooseF(xs ...float64) float64  { return xs[g.r.Intn(len(xs))] }
 
